@@ -389,8 +389,9 @@ impl QosPolicies {
 
     // check Ownership:
     // offered kind == requested kind
+    // Only the kind is request/offered; the strength of Exclusive is not.
     if let (Some(off), Some(req)) = (self.ownership, other.ownership) {
-      if off != req {
+      if std::mem::discriminant(&off) != std::mem::discriminant(&req) {
         return Some(QosPolicyId::Ownership);
       }
     }
